@@ -47,7 +47,8 @@ RULE = ('twin-object cases drawn from the seed: (object kind, Fs, channels, appl
 NOT_COVERED = [
     'determinism / copyability / reset-equivalence of the DSP interior (SILK, CELT, tonality analysis, resamplers): searched '
     'by the twin harness (byte equality under poisoned heap and stack, decoy objects, every RTCD level), not proved',
-    'absence of uninitialised reads is explored with zero / 0x5A / 0xA5 heap+stack fills and ASan; no MemorySanitizer/valgrind run',
+    'absence of uninitialised reads: explored with zero / 0x5A / 0xA5 heap+stack+output-buffer fills and ASan in both tiers, and with a '
+    'clang MemorySanitizer build of library + twin harness (shadow of every packet / PCM byte checked) in the thorough tier only',
     'multistream / projection OPUS_GET_BITRATE and OPUS_GET_FORCE_CHANNELS after a reset report what the layer wrote into the '
     'stream encoders for the previous frame (rewritten before every encode); they are not compared in reset mode',
     'OPUS_SET_VOICE_RATIO (private, overwritten by every non-silent frame) is not used in histories; OPUS_SET_FORCE_MODE '
@@ -371,6 +372,115 @@ def _corpus(ctx):
     return n, wits
 
 
+
+# ------------------------------------------------------------------ poke sensitivity: the read set, measured
+# How the hand-written View / DecView of OpusModel.ResetState classify the members (C spelling).  `live`: an
+# atomic member of the view; `gated`: compared only while its gate is open (closed right after a reset);
+# every other poked member is `dead` (assigned before use on every path).
+VIEW_LIVE = {
+    'enc': ('application force_channels signal_type user_bandwidth max_bandwidth user_forced_mode voice_ratio use_vbr '
+            'vbr_constraint variable_duration user_bitrate_bps lsb_depth lfe use_dtx fec_config stream_channels '
+            'hybrid_stereo_width_Q14 variable_HP_smth2_Q15 prev_HB_gain mode prev_mode prev_channels prev_framesize bandwidth '
+            'auto_bandwidth silk_bw_switch first detected_bandwidth nb_no_activity_ms_Q1 peak_signal_energy nonfinal_frame '
+            'rangeFinal').split(),
+    'silk_mode': 'packetLossPercentage complexity useInBandFEC useDRED reducedDependency LBRR_coded allowBandwidthSwitch inWBmodeWithoutVariableLP'.split(),
+    'celt': 'force_intra disable_pf complexity loss_rate lfe disable_inv'.split(),
+    'dec': 'decode_gain complexity stream_channels bandwidth mode prev_mode frame_size prev_redundancy last_packet_duration rangeFinal'.split(),
+    'DecControl': ['prevPitchLag'],
+}
+VIEW_GATED = {'silk_mode': 'toMono useDTX nChannelsInternal opusCanSwitch'.split(),
+              'DecControl': 'nChannelsInternal internalSampleRate'.split()}
+
+
+def _poke(ctx):
+    """harness/c12_state.c poke: one member at a time receives a value it legitimately holds elsewhere (fresh object,
+    earlier state of the same history), right after a reset (when=0) or mid-history (when=1); SENSITIVE = some later
+    output changes or the call asserts.  Cross-check against the hand-written view: a member sensitive right after a
+    reset must be a live member of the view; a member sensitive mid-history must be live or gated; dead members are
+    never sensitive."""
+    h = _state(ctx, 'plain')
+    n = {'enc': 16, 'dec': 24} if ctx.quick else {'enc': 240, 'dec': 300}
+    jobs = []
+    for kind in ('enc', 'dec'):
+        chunk = max(8, n[kind] // (2 if ctx.quick else 12))
+        for when in (0, 1):
+            for first in range(0, n[kind], chunk):
+                jobs.append((kind, when, first, min(chunk, n[kind] - first)))
+
+    def one(j):
+        rc, out, err = _run([h, 'poke', j[0], str(ctx.seed), str(4000000 + j[2]), str(j[3]), str(j[1])], timeout=3000)
+        return j, rc, out, err
+    tab, failed = {}, []
+    with ThreadPoolExecutor(max_workers=4) as ex:
+        for j, rc, out, err in ex.map(one, jobs):
+            if rc != 0:
+                failed.append('poke %s: exit %d %s' % (j, rc, (err or '')[-200:]))
+            for m in re.finditer(r'^K (\w+) (\d) (\w+)\.(\w+) trials=(\d+) sens=(\d+) crash=(\d+)$', out, re.M):
+                key = (m.group(3), m.group(4), int(m.group(2)))
+                t = tab.setdefault(key, [0, 0, 0])
+                t[0] += int(m.group(5)); t[1] += int(m.group(6)); t[2] += int(m.group(7))
+    bad, table = [], {}
+    for (tag, name, when), (tr, se, cr) in sorted(tab.items()):
+        cls = 'live' if name in VIEW_LIVE.get(tag, []) else 'gated' if name in VIEW_GATED.get(tag, []) else 'dead'
+        table.setdefault('%s.%s' % (tag, name), {'view': cls})['after_reset' if when == 0 else 'mid_history'] = [tr, se, cr]
+        if se and (cls == 'dead' or (cls == 'gated' and when == 0)):
+            bad.append('%s.%s is %s in the view but was sensitive in %d of %d experiments %s' % (
+                tag, name, cls, se, tr, 'right after a reset' if when == 0 else 'mid-history'))
+    return {'experiments': sum(v[0] for v in tab.values()), 'members': len(table), 'table': table,
+            'view_contradicted': bad, 'errors': failed}
+
+
+# ------------------------------------------------------------------ MemorySanitizer (thorough tier)
+MSAN_FLAGS = ('-Wno-error -D%s -fsanitize=memory -fsanitize-memory-track-origins -fno-omit-frame-pointer '
+              '-U_FORTIFY_SOURCE -D_FORTIFY_SOURCE=0' % common.GUARD)
+
+
+def _msan(ctx):
+    """clang MemorySanitizer build of the library and of the twin harness in the run's scratch directory (removed at exit).
+    _FORTIFY_SOURCE must be off: MSan does not intercept __memset_chk, so every OPUS_CLEAR would leave its target
+    'uninitialised' (false reports in ec_enc_done / silk_pitch_analysis_core_FLP).  The harness does not fill heap and
+    stack in this build and checks the shadow of every packet / PCM buffer it receives."""
+    import shutil
+    if not shutil.which('clang'):
+        return {'ran': False, 'why': 'clang not installed'}, []
+    d = os.path.join(common.scratch(), 'msan')
+    rc, out = common.sh(['cmake', '-G', 'Ninja', '-S', common.REPO, '-B', d, '-DCMAKE_BUILD_TYPE=RelWithDebInfo',
+                         '-DCMAKE_C_COMPILER=clang', '-DCMAKE_C_FLAGS=' + MSAN_FLAGS, '-DOPUS_BUILD_TESTING=OFF',
+                         '-DOPUS_BUILD_PROGRAMS=OFF', '-DOPUS_HARDENING=ON', '-DOPUS_FORTIFY_SOURCE=OFF'])
+    if rc == 0:
+        rc, out = common.sh(['cmake', '--build', d, '-j8', '--target', 'opus'])
+    if rc != 0:
+        raise RuntimeError('MSan library build failed: ' + out[-1500:])
+    exe = os.path.join(d, 'c12_twin_msan')
+    rc, out = common.sh(['clang', '-g', '-O1', '-fsanitize=memory', '-fsanitize-memory-track-origins', '-fno-omit-frame-pointer',
+                         '-I' + os.path.join(common.REPO, 'include'), '-I' + common.HARNESS, '-Wl,--wrap=malloc',
+                         os.path.join(common.HARNESS, 'c12_twin.c'), os.path.join(d, 'libopus.a'), '-lm', '-o', exe])
+    if rc != 0:
+        raise RuntimeError('MSan harness build failed: ' + out[-1500:])
+    per = {'enc': 300, 'dec': 300, 'msenc': 80, 'msdec': 80, 'projenc': 50, 'projdec': 30, 'rp': 100}
+    jobs = [(m, k, 5000000, per[k]) for k in KINDS for m in ('determ', 'clone', 'reset')]
+
+    def one(j):
+        rc, out, err = _run([exe, 'run', j[0], j[1], str(ctx.seed), str(j[2]), str(j[3])], timeout=3000)
+        return j, rc, out, err
+    wits, cases = [], 0
+    with ThreadPoolExecutor(max_workers=4) as ex:
+        for j, rc, out, err in ex.map(one, jobs):
+            good = sum(1 for l in out.split('\n') if l.endswith(' OK'))
+            cases += good
+            rep = [l for l in (out + err).split('\n') if 'MemorySanitizer' in l or l.startswith('MSAN-OUTPUT') or re.match(r'\s+#[0-3] ', l)][:8]
+            diff = [l for l in out.split('\n') if ' DIFF ' in l][:1]
+            if rc != 0 or diff:
+                wits.append({'suite': 'msan-%s-%s' % (j[0], j[1]),
+                             'input': 'c12_twin run %s %s %d %d %d variant=msan (case index %d is the first not completed)' % (
+                                 j[0], j[1], ctx.seed, j[2], j[3], j[2] + good),
+                             'expected': 'no use of uninitialised memory; every output byte initialised; twins equal',
+                             'observed': ' | '.join(rep + diff)[:900] or 'exit %d' % rc,
+                             'why': 'MemorySanitizer: the result of a call depends on memory the library never initialised '
+                                    '(process memory contents)'})
+    return {'ran': True, 'cases': cases, 'reports': len(wits)}, wits
+
+
 def search(ctx):
     t0 = time.time()
     n_corpus, corpus_w = _corpus(ctx)
@@ -406,6 +516,15 @@ def search(ctx):
                             'observed': 'exit %d after %d cases: %s' % (rc, got, (err or '')[-600:]),
                             'why': 'the twin harness crashed / a sanitizer reported (a clone or a reset object touched memory '
                                    'it does not own, or a hardening assertion fired)'})
+    poke = _poke(ctx)
+    if poke['view_contradicted'] or poke['errors']:
+        raise RuntimeError('the measured read set contradicts OpusModel.ResetState.View / DecView (the footprint model is '
+                           'not the code): ' + '; '.join(poke['view_contradicted'] + poke['errors'])[:1500])
+    msan = {'ran': False, 'why': 'thorough tier only'}
+    if not ctx.quick:
+        msan, msan_w = _msan(ctx)
+        crashed.extend(msan_w)
+        cases += msan.get('cases', 0)
     # one witness per distinct cause first (public-API-only histories first), then the rest
     witnesses.sort(key=lambda w: ('priv1' in w['input'], w['mode'] != 'reset', _prio(w)))
     first, rest, seen = [], [], set()
@@ -420,6 +539,7 @@ def search(ctx):
                       'settings replayed, same history under zero-filled vs 0x5A-poisoned heap+stack with decoy objects; plain and ASan/UBSan builds; '
                       'RTCD caps %s + uncapped' % (CAPS_QUICK if ctx.quick else CAPS_THOROUGH),
             'corpus_cases': n_corpus, 'corpus_failures': len(corpus_w),
+            'poke_read_set': poke, 'msan': msan,
             'per_suite_ok_diff': {k: list(v) for k, v in sorted(per.items())},
             'causes': sorted(set(_ckey(w['cause']) for w in witnesses if w['cause'])),
             'samples': samples, 'witnesses': crashed + out_w}
